@@ -505,6 +505,19 @@ class IntervalInterp:
             b = self.ev(n.value, env)
             self.ev(n.slice, env)
             if isinstance(n.slice, ast.Slice):
+                sl = n.slice
+                width = None
+                if sl.step is None and sl.upper is not None:
+                    if sl.lower is None:
+                        width = self.ev(sl.upper, env)                     # x[:K] holds at most K elements
+                    elif isinstance(sl.upper, ast.BinOp) and isinstance(sl.upper.op, ast.Add):
+                        lo_src = ast.unparse(sl.lower)
+                        if ast.unparse(sl.upper.left) == lo_src:
+                            width = self.ev(sl.upper.right, env)           # x[a:a+K] holds at most K elements
+                        elif ast.unparse(sl.upper.right) == lo_src:
+                            width = self.ev(sl.upper.left, env)
+                if width is not None and not math.isinf(width.hi) and width.hi >= 0 and width.kind in ("scalar", "unknown"):
+                    return b.copy(size=AV(0, width.hi, "scalar"))
                 return b.copy(size=None)
             return self.element(b)
         if isinstance(n, ast.JoinedStr):
